@@ -1033,3 +1033,5 @@ func init() {
 	register(&Suite{Name: "conc", Parallel: 6, Gen: genConc, Exec: execConc,
 		Rule: "schedules of the Lean interleaving machine (flush / rotation step / query step over 1–3 streams and 1–3 queries, fixed hand-over schedules first) replayed step by step on the real writer, metadata and query code in a fresh engine process each: rotation stopped before each protocol step (instrumented copy of segstore.go), queries stopped after each segment-list snapshot (product hook FilterQsrsHook); compared: order of executed steps, both snapshots, blocks read / count, open and rotated lists, final contents; non-trivial = ≥3 labels"})
 }
+
+func init() { registerWorker("c11worker", c11WorkerMain) }
